@@ -131,20 +131,31 @@ def run(ctx):
                     cur = strip_sym(cur[2][0])
                 okh = chain[:1] == ["map"] and set(chain[1:]) <= {"iter", "into_iter", "deref"} and is_param(cur, 1)
             chk.ob("C07.b", f"{rsf.path} [Histogram]", okh, "histogram.record_many(every sample value)" if okh else "the Histogram arm does not record every drained sample exactly once", rsf.loc())
-            adds = [c for c in rsf.body.calls() if c.bb in sb and c.is_("RollingSummary::add")]
-            sums = []
-            sy = Sym(rsf)
-            for i in sorted(sb):
-                for s in b.blocks[i]["s"]:
-                    if s["k"] == "assign" and s["p"].get("pr") and s["rv"]["k"] == "bin" and s["rv"]["op"].startswith("Add"):
-                        sums.append((i, s))
-            oks = len(adds) == 1 and in_cycle(b, adds[0].bb) and len(sums) == 1 and in_cycle(b, sums[0][0])
+            from props.common import iteration_context
+
+            adds = [c for c in nonforeign_calls(rsf) if c.is_("RollingSummary::add")]
+            oks = len(adds) == 1
             if oks:
-                a = arg_syms(adds[0])
-                oks = "'0'" in repr(a[1]) and "'1'" in repr(a[2])
-                rv = sums[0][1]["rv"]
-                s_a, s_b = strip_sym(sy.operand(rv["a"])), strip_sym(sy.operand(rv["b"]))
-                oks = oks and ("'0'" in repr(s_b) or "'0'" in repr(s_a))
+                ad = adds[0]
+                in_arm = (ad.bb in sb) if ad.fn is rsf else any(lab == "Summary" for dd, lab in gates(ad.body, ad.bb))
+                src, _why = iteration_context(ad)
+                src_ok = src is not None and is_param(sym_through(src, "Deref::deref"), 1)
+                fb = ad.body
+                fsy = Sym(ad.fn)
+                sums = []
+                for i, k_, st in fb.stmts():
+                    if st["k"] == "assign" and st["p"].get("pr") and st["rv"]["k"] == "bin" and st["rv"]["op"].startswith("Add") and not fb.blocks[i].get("cleanup"):
+                        if ad.fn is not rsf or (i in sb and in_cycle(fb, i)):
+                            sums.append((i, st))
+                oks = in_arm and src_ok and len(sums) == 1
+                if oks:
+                    a = arg_syms(ad)
+                    oks = "'0'" in repr(a[1]) and "'1'" in repr(a[2])
+                    rv = sums[0][1]["rv"]
+                    s_a, s_b = strip_sym(fsy.operand(rv["a"])), strip_sym(fsy.operand(rv["b"]))
+                    oks = oks and ("'0'" in repr(s_b) or "'0'" in repr(s_a))
+                    # no path through an iteration skips the sum: same block region as the add (both unconditional in the body)
+                    oks = oks and not [1 for dd, lab in gates(fb, sums[0][0], up=False) if lab in (True, False) and (dd, lab) not in gates(fb, ad.bb, up=False)]
             chk.ob("C07.b", f"{rsf.path} [Summary]", oks, "per sample: summary.add(sample, ts) and sum += sample" if oks else "the Summary arm does not add every sample to the sketch and to the cumulative sum exactly once", rsf.loc())
     render = (p.method(INNER, "render") or [None])[0]
     if need(chk, "C07.b", "Inner::render", render):
